@@ -54,7 +54,7 @@ def pipeline(path, lattice, flags):
     if not flags.get('skip_geomcomp'):
         writeT4GeomComp(dic_volumes_t4, mcnp_new_dict, out)
     if not flags.get('skip_boundary_conditions'):
-        writeT4BoundCond(dic_surf_mcnp, out)
+        writeT4BoundCond(dic_surf_mcnp, out, dic_surface_t4, dic_volumes_t4)
     return PipelineResult(out.getvalue(), list(skipped), '')
 
 
